@@ -5,7 +5,7 @@ from . import tlc, token
 from . import e2_token as e2
 
 INV_OF = {"C06": {"Informed"}, "C11": set(),
-          "C08": {"Capacity", "MutualExclusion", "TypeOK"},
+          "C08": {"Capacity", "MutualExclusion", "TypeOK", "RunningHoldFile", "RunningUnderCapacity"},
           "C09": {"ObserversSurvive", "Informed", "NoOrphanEmptyFile", "ReclaimOnlyAfterEnd", "Capacity"}}
 # events whose mismatch concerns each property
 EVENTS_OF = {"C11": ("tok.init", "tok.info", "h.start", "tok.acq", "end"),   # the next scheduler on the token directory a dead one left
@@ -26,6 +26,18 @@ def run(rep, prop, tier, replay_name=None, only=None):
                 rep.violation(f"{prop}/model/{res.violation[1]}", f"TLC: {res.violation} in {cfg}", {"tlc_tail": res.out[-2500:]})
         elif res.error:
             rep.machinery_failure(f"TLC failed on {cfg}: {res.error}")
+    if replay_name is None and not only and prop == "C08":
+        # a job that comes back under the same token file name while a reclaim thread still watches its first run (F23)
+        res = tlc.tlc("MC_TokenFS.tla", "MC_TokenFS_resubmit.cfg", timeout=2400)
+        rep.add_tlc("MC_TokenFS_resubmit", res, "total 4, a job asking for 1 then 3, another asking for 2, depth <= 30")
+        if res.violation:
+            rep.violation(f"{prop}/model/{res.violation[1]}", f"TLC: {res.violation} in MC_TokenFS_resubmit", {"tlc_tail": res.out[-2500:]})
+        elif res.error:
+            rep.machinery_failure(f"TLC failed on MC_TokenFS_resubmit: {res.error}")
+        res = tlc.tlc("MC_TokenFS.tla", "MC_TokenFS_resubmit_F23.cfg", timeout=2400)
+        rep.add_tlc("MC_TokenFS_resubmit_F23", res, "the reclaim as it was (no job lock): must violate RunningHoldFile")
+        if not res.violation and not res.error:
+            rep.machinery_failure("MC_TokenFS does not show the stale reclaim (F23)")
     if replay_name is None and not only:
         if prop in ("C06", "C09"):
             # the two steps of a submission (register with the token, first check): the order of the code holds, the other loses a release
